@@ -568,15 +568,17 @@ func (se *SessionExecutor) recycleBackendConn(pc backend.PooledConnect) {
 		return
 	}
 
+	// if continueConn set to pc,maybe moreRowsExist or moreResultsExist: the reply is still being read from
+	// this connection, recycleContinueConn deals with it afterwards. This comes first: a connection that
+	// re-dialed in place after a broken pipe is flagged closed although it is alive and in use here.
+	if se.session.continueConn != nil && (pc.MoreRowsExist() || pc.MoreResultsExist()) {
+		return
+	}
+
 	if pc.IsClosed() {
 		se.recycleTx(pc)
 		se.forgetKsConn(pc)
 		pc.Recycle()
-		return
-	}
-
-	// if continueConn set to pc,maybe moreRowsExist or moreResultsExist
-	if se.session.continueConn != nil && (pc.MoreRowsExist() || pc.MoreResultsExist()) {
 		return
 	}
 
